@@ -326,7 +326,13 @@ void parse_opml_token_chain(mmd_engine * e, token * chain) {
 					break;
 
 				case OPML_OUTLINE_CLOSE:
-					header_level--;
+
+					// A closing tag without an opening one must not wrap the
+					// (unsigned) level around
+					if (header_level > 0) {
+						header_level--;
+					}
+
 					break;
 
 				default:
